@@ -1,5 +1,6 @@
 #!/venv/bin/python
-"""Write the prompts for one round of seeded-change sub-agents: each gets two property texts (from properties.jsonl,
+"""(with --plain as first argument: the plain wording of the first round, no list of earlier changes - a blind round)
+Write the prompts for one round of seeded-change sub-agents: each gets two property texts (from properties.jsonl,
 nothing else from /verif), the one-line descriptions of the changes earlier agents made, and its own scratch worktree.
 usage: make_prompts.py <out dir> <suffix a> <suffix b> [extra notes dirs...]"""
 import glob
@@ -8,6 +9,9 @@ import os
 import sys
 
 V = os.path.dirname(os.path.dirname(os.path.abspath(__file__)))
+PLAIN = len(sys.argv) > 1 and sys.argv[1] == '--plain'
+if PLAIN:
+    del sys.argv[1]
 out, sa, sb = sys.argv[1], sys.argv[2], sys.argv[3]
 extra = sys.argv[4:]
 props = [json.loads(l) for l in open(os.path.join(V, 'properties.jsonl'))]
@@ -50,24 +54,47 @@ The two properties:
 """
 
 
+PLAIN_HEAD = """You are helping to test a verification framework for the Python library nexB/debian-inspector (pure Python: Debian deb822 control/copyright parsers, Debian version comparison, dependency relationship expressions). You have your own scratch git worktree of the library at {wt} (source under {wt}/src/debian_inspector, tests under {wt}/tests). Work ONLY inside {wt} and write your results ONLY under {out}/. Do NOT read or touch /repo, /verif or any other directory; do not look for other verification material on this machine. There is no network.
+
+Your task: for EACH of the two properties below, produce TWO different, realistic code changes ("mutants", directories {out}/<ID>_{sa}/ and {out}/<ID>_{sb}/) to the library that BREAK that property while the library still imports and its existing test suite still passes. Prefer subtle changes a real developer could make by mistake or as a plausible refactoring (an off-by-one, a swapped comparison, a dropped case, a changed regular expression, two cooperating sites that each look fine alone), and prefer changes that need something specific to manifest (an unusual input, a particular combination or order of operations, a corner of the input grammar) rather than ones that any ordinary use would expose at once. Do not just delete functionality or raise exceptions unconditionally.
+
+How to run the existing tests in your worktree (they must all still pass WITH your change applied; 138 passed, 6 xfailed is the baseline; run them twice to rule out flakiness):
+  cd {wt} && PYTHONPATH={wt}/src /venv/bin/python -m pytest -q -p no:cacheprovider
+(The PYTHONPATH setting is essential: without it Python imports another copy of the library.) Note: one test rewrites a file under tests/data on every run; ignore that file in your diff (git checkout it).
+
+For each mutant create its directory containing:
+  - patch.diff : output of `git -C {wt} diff -- src` for this mutant only (relative to the clean worktree; it must apply with `git apply` to a clean checkout of the same commit);
+  - demo.py    : a small stand-alone Python program that demonstrates the property violation: run as `PYTHONPATH=<checkout>/src /venv/bin/python demo.py` it must exit with status 1 (printing what went wrong) when the mutant is applied and exit with status 0 on the unmodified library; it must finish within a minute and must not depend on files outside its own directory;
+  - notes.md   : first line `# <ID>_<n> - <one-line description>`; then 5-15 lines: which property it breaks and how, a paragraph starting with the words "Needed to see it:" saying what specific input / sequence is needed for the failure to show, and why the existing tests do not notice.
+Between mutants restore the worktree with `git -C {wt} checkout -- .` so that each patch is independent. Verify each mutant yourself: (1) apply patch on clean worktree, (2) full test suite passes, (3) demo.py exits 1; then (4) clean worktree, demo.py exits 0. Leave the worktree clean at the end.
+
+When you are done reply with a short list: for every mutant its directory, a one-line description, and the confirmation that steps (1)-(4) were carried out.
+
+The two properties:
+"""
+
+
 def prop_text(p):
     a = p['anchors']
     s = '\n### Property %s - %s\n\nStatement: %s\n\nQuantified over: %s\n\nWhy the existing tests cannot settle it: %s\n\n' % (
         p['id'], p['title'], p['statement'], p['quantifier']['text'], p['why_tests_cant'])
     s += 'Where the behaviour lives (line numbers are approximate): ' + '; '.join('%s %s' % (m['where'], m['name']) for m in a['mechanism']) + '\n\n'
     s += 'Observed through: ' + '; '.join(a['observe_at']) + '\n\n'
-    s += 'Changes already tried by others for this property (yours must differ in kind from ALL of them):\n'
-    s += ''.join('- %s\n' % e for e in earlier.get(p['id'], []))
+    if not PLAIN:
+        s += 'Changes already tried by others for this property (yours must differ in kind from ALL of them):\n'
+        s += ''.join('- %s\n' % e for e in earlier.get(p['id'], []))
     return s
 
 
 os.makedirs(out, exist_ok=True)
 # pair properties that live in different modules, so that an agent does not reuse one idea twice
 order = ['C01', 'C11', 'C02', 'C12', 'C03', 'C13', 'C04', 'C14', 'C05', 'C15', 'C06', 'C16', 'C07', 'C17', 'C08', 'C18', 'C09', 'C19', 'C10', 'C20']
+if PLAIN:
+    order = ['C01', 'C08', 'C02', 'C09', 'C03', 'C10', 'C04', 'C11', 'C05', 'C12', 'C06', 'C13', 'C07', 'C14', 'C15', 'C18', 'C16', 'C19', 'C17', 'C20']
 by = {p['id']: p for p in props}
 for i in range(10):
     wt = '/tmp/mw%d' % (i + 1)
     a, b = by[order[2 * i]], by[order[2 * i + 1]]
     with open(os.path.join(out, 'prompt_%d.txt' % (i + 1)), 'w') as f:
-        f.write(HEAD.format(wt=wt, out=out, sa=sa, sb=sb) + prop_text(a) + prop_text(b))
+        f.write((PLAIN_HEAD if PLAIN else HEAD).format(wt=wt, out=out, sa=sa, sb=sb) + prop_text(a) + prop_text(b))
 print('wrote 10 prompts to', out)
